@@ -158,6 +158,27 @@ def hist_task(t):
     return res
 
 
+def dl_task(t):
+    """difference logic: three asserted constraints + a disjunction (a4 or p) over the 30 constraints with bounds -1, 0 on x, y, z:
+    the solver deduces a4 (or its negation) from paths through the asserted edges and has to explain it, with parallel
+    weaker/stronger edges around (the family sets never have three constraints and a deducible fourth atom)"""
+    from . import chk_misc
+    prop, famname, start, step = t
+    fam = F.FAMILIES[famname]
+    res = core.new_result(); cov = res['cov']
+    w = S.worker()
+    small = [a for a in chk_misc.dl_atoms() if not a.endswith(' 1)')]
+    jobs = [(c, d) for c in itertools.combinations(range(len(small)), 3) for d in range(len(small)) if d not in c]
+    for c, d in jobs[start::step]:
+        assertions = [small[i] for i in c] + ['(or %s p)' % small[d]]
+        script = S.build_script(fam, assertions, (), models=False)
+        r = w.run(script, trace=True, timeout=5)
+        cov['executions'] += 1
+        judge(prop, fam, (), script, r, res, 'difference_paths', [assertions])
+        if len(res['samples']) < 1: res['samples'].append({'script': script, 'trace_head': r.trace[:400]})
+    return res
+
+
 RULES = {
     'C11': 'every TCONFLICT / TREASON / TSPLIT / TDEDUCE0 line (hooks in THandler, TheoryIF) of every execution: the clause must have no certified counter-model; distinct = distinct (family, hook, clause)',
     'C12': 'every DERIVED line (analyze, analyzeFinal, SatELite eliminateVar/substitute resolvents, strengthenClause, split units) of every execution must be confirmed by reverse unit propagation against ORIG + theory clauses + earlier derived clauses; distinct = distinct (family, site, clause)',
@@ -181,6 +202,9 @@ def run(prop, tier):
     if prop == 'C12':
         chk.run_stage('propositional clause sets (5-7 of 12 clauses over 4 variables), %d option vectors' % len(vecs), st(['PROP'], 'clauses', 0, vecs, 16), set_task)
     chk.run_stage('histories L<=5 (4 assertions), default options', [(prop, f, 4, 5, (), s, 4) for f in hf for s in range(4)], hist_task)
+    if prop == 'C11':
+        dlf = ['QF_RDL'] if tier == 'quick' else ['QF_RDL', 'QF_IDL']
+        chk.run_stage('difference logic: every triple of 30 difference constraints + a disjunction over a fourth (deduced atoms with parallel edges)', [(prop, f, s, 64) for f in dlf for s in range(64)], dl_task)
     if tier == 'thorough':
         chk.run_stage('n<=3, 6-atom pools, all option vectors', st(coref, 'core', 3, vecs[1:], 32), set_task)
         chk.run_stage('n<=3, full pools, default options', st(fams, 'full', 3, [()], 64), set_task)
